@@ -38,7 +38,10 @@ RULE = ("all transfer endings of the simulation (completed, client ERROR, invali
         "scheduled worker, the socket is a stub): for pairs and triples of caller programs over {start, stop, "
         "start;stop, stop;start, start;start, stop;stop, start;stop;start} every single pre-emption (step x target "
         "thread) and random 2-4 pre-emption schedules; each run is replayed event by event (critical sections, "
-        "request-port thread seeing the shutdown request / ending) on the Lean model's `step`")
+        "request-port thread seeing the shutdown request / ending) on the Lean model's `step`; the REAL HttpServer likewise "
+        "(cooperative Thread/Lock/Event through a `threading` shim in vinegar.http.server and socketserver, stub selector, "
+        "real listening sockets on an ephemeral port; lines of start/stop/_run/serve_forever/shutdown are pre-emption "
+        "points), each run replayed call by call on `Http.Lifecycle.call`")
 BUDGET_S = {"quick": 60, "thorough": 600}
 
 
@@ -53,8 +56,12 @@ _transfer_judge = B.make_judge(required=["c20"], project=T.proj_resources, extra
 
 def run_impl(case, env):
     if case.get("kind") == "lifecycle_sched":
+        c = {k: v for k, v in case.items() if not k.startswith("_")}
+        if case.get("server") == "http":
+            import http_life_sched_adapter
+            return http_life_sched_adapter.run_case(c)
         import life_sched_adapter
-        return life_sched_adapter.run_case({k: v for k, v in case.items() if not k.startswith("_")})
+        return life_sched_adapter.run_case(c)
     import tftp_adapter
     if case.get("kind", "").startswith("lifecycle"):
         return tftp_adapter.run_lifecycle(case)
@@ -67,6 +74,14 @@ def _sched_outcomes(obs):
 
 def model_requests(case, obs):
     k = case.get("kind", "")
+    if k == "lifecycle_sched" and case.get("server") == "http":
+        reqs = []
+        for o in _sched_outcomes(obs):
+            f = o.get("final") or {"running": False, "server_obj": False, "listening": False, "thread_ref": False,
+                                   "thread_alive": False}
+            reqs.append({"op": "http.lifecycle", "mode": "replay", "calls": [e["op"] for e in o.get("events", [])],
+                         "final": {x: f[x] for x in HTTP_FLAGS}})
+        return reqs
     if k == "lifecycle_sched":
         reqs = []
         for o in _sched_outcomes(obs):
@@ -125,6 +140,36 @@ def _judge_sched_one(case, o, replay, end):
     return True, None, True, None
 
 
+HTTP_FLAGS = ("running", "server_obj", "listening", "thread_ref", "thread_alive")
+
+
+def _judge_sched_http(case, o, m):
+    sub = {"threads": case["threads"], "preempt": o.get("preempt"), "order": case.get("order"), "server": "http"}
+    if o.get("timed_out"):
+        return True, None, False, {"infrastructure": "scheduler run timed out", "schedule": sub}
+    if o.get("deadlock"):
+        return False, "deadlock", False, {"schedule": sub, "events": o["events"][-6:]}
+    if o.get("livelock"):
+        return False, "never_ends", False, {"schedule": sub, "events": o["events"][-6:]}
+    bad = [r for rs in o["results"] for r in rs if r != "ok"]
+    if bad or o.get("errors"):
+        return False, "lifecycle_call_raised", False, {"schedule": sub, "results": o["results"], "errors": o["errors"]}
+    f = o["final"]
+    if not m["impl_final_consistent"]:
+        return False, "inconsistent_end_state", False, {"schedule": sub, "final": f, "events": o["events"][-8:]}
+    if f["sockets_open"] > 1 or f["threads_alive"] > 1 or (not f["running"] and f["sockets_open"] > 0):
+        return False, "leaked_socket_or_thread", False, {"schedule": sub, "final": f}
+    for i, (e, ms) in enumerate(zip(o["events"], m["states"])):
+        if e["state"]["sockets_open"] > 1 or e["state"]["threads_alive"] > 1:
+            return False, "two_serving_threads", False, {"schedule": sub, "event": e}
+        if any(e["state"][x] != ms[x] for x in HTTP_FLAGS):
+            return True, None, False, {"schedule": sub, "event_index": i, "event": e, "model": ms}
+    if len(o["events"]) != sum(len(t) for t in case["threads"]) or any(f[x] != m["model_final"][x] for x in HTTP_FLAGS):
+        return True, None, False, {"schedule": sub, "final": f, "model_final": m["model_final"],
+                                   "calls_seen": len(o["events"])}
+    return True, None, True, None
+
+
 def judge(case, obs, resps):
     k = case.get("kind", "")
     if k == "lifecycle_sched":
@@ -133,8 +178,10 @@ def judge(case, obs, resps):
                                                  [r for r in resps if "err" in r][:1]}, kind="infra", nontrivial=False)
         outs = _sched_outcomes(obs)
         worst = None
+        http = case.get("server") == "http"
         for i, o in enumerate(outs):
-            r = _judge_sched_one(case, o, resps[2 * i]["ok"], resps[2 * i + 1]["ok"])
+            r = _judge_sched_http(case, o, resps[i]["ok"]) if http else \
+                _judge_sched_one(case, o, resps[2 * i]["ok"], resps[2 * i + 1]["ok"])
             if not r[0]:
                 worst = r
                 break
@@ -142,14 +189,14 @@ def judge(case, obs, resps):
                 worst = r
         style = "sweep" if "sweep" in obs else "single"
         if worst is None:
-            return Judgement(case, True, True, None, kind=f"lifecycle_sched/{style}",
+            return Judgement(case, True, True, None, kind=f"lifecycle_sched/{case.get('server', 'tftp')}/{style}",
                              nontrivial=sum(len(t) for t in case["threads"]) >= 2)
         spec_ok, clause, agree, detail = worst
         if "sweep" in case and detail and isinstance(detail.get("schedule"), dict):
             # the replay is the single failing schedule, not the whole sweep
             case = dict({k_: v for k_, v in case.items() if k_ != "sweep"}, preempt=detail["schedule"]["preempt"])
-        return Judgement(case, spec_ok, agree, detail, kind=f"lifecycle_sched/{style}", nontrivial=True,
-                         failed_clause=clause)
+        return Judgement(case, spec_ok, agree, detail, kind=f"lifecycle_sched/{case.get('server', 'tftp')}/{style}",
+                         nontrivial=True, failed_clause=clause)
     if not k.startswith("lifecycle"):
         return _transfer_judge(case, obs, resps)
     if "harness_exception" in obs or any("err" in r for r in resps):
@@ -260,20 +307,22 @@ def gen_lifecycle_sched(rng, tier, mult=1):
     for a, b in pairs:
         for order in ([0, 1], [1, 0]):
             for k in range(chunks):
-                yield {"kind": "lifecycle_sched", "threads": [PROGRAMS[a], PROGRAMS[b]], "order": order,
-                       "sweep": [k, chunks], "servers": 2, "_meta": {"style": "lifecycle-sched"}}
+                for server in ("tftp", "http"):
+                    yield {"kind": "lifecycle_sched", "server": server, "threads": [PROGRAMS[a], PROGRAMS[b]],
+                           "order": order, "sweep": [k, chunks], "servers": 2, "_meta": {"style": "lifecycle-sched"}}
     triples = [(2, 3, 1), (0, 1, 2), (2, 2, 3)] if tier == "quick" else \
         [tuple(rng.randrange(len(PROGRAMS)) for _ in range(3)) for _ in range(30 * mult)]
     for t in triples:
         for k in range(chunks):
-            yield {"kind": "lifecycle_sched", "threads": [PROGRAMS[x] for x in t], "order": [0, 1, 2],
-                   "sweep": [k, chunks], "servers": 2, "_meta": {"style": "lifecycle-sched"}}
+            for server in ("tftp", "http"):
+                yield {"kind": "lifecycle_sched", "server": server, "threads": [PROGRAMS[x] for x in t],
+                       "order": [0, 1, 2], "sweep": [k, chunks], "servers": 2, "_meta": {"style": "lifecycle-sched"}}
     for i in range((150 if tier == "quick" else 6000) * mult):
         nt = rng.choice([2, 2, 3])
         th = [PROGRAMS[rng.randrange(len(PROGRAMS))] for _ in range(nt)]
         order = list(range(nt))
         rng.shuffle(order)
-        yield {"kind": "lifecycle_sched", "threads": th, "order": order,
+        yield {"kind": "lifecycle_sched", "server": rng.choice(["tftp", "http"]), "threads": th, "order": order,
                "preempt_frac": sorted([rng.random(), rng.randrange(nt + 2)] for _ in range(rng.choice([2, 3, 4]))),
                "_meta": {"style": "lifecycle-sched"}}
 
